@@ -40,6 +40,12 @@ def run(res, tier, seed, shard, nshards):
         crossing_closes(res, W, tier, seed)
     if shard == 1 % nshards:
         real_tls_close(res, W)
+    if shard == 2 % nshards:
+        for peer2 in ("silent", "answers"):
+            for sock_to1 in (None, 30):
+                for close_to in (0.5, 2):
+                    for reader_api in ("recv", "recv_frame", "recv_data"):
+                        two_objects_case(res, W, rng, peer2, sock_to1, close_to, reader_api)
 
     def scen():
         idx = 0
@@ -63,7 +69,7 @@ def run(res, tier, seed, shard, nshards):
         # R6: close(timeout=t) returns within t whatever the socket timeout and however the peer behaves
         ti = 0
         for sock_to in (None, 0.3, 1, 5):
-            for close_to in (0.5, 2, 3):
+            for close_to in (0, 0.0, 0.5, 2, 3):
                 for peer in ("silent", "answers", "answers-late", "stream-0.05", "stream-0.4", "stream-pings", "eof"):
                     ti += 1
                     if ti % nshards == shard:
@@ -444,6 +450,69 @@ def close_timing_case(res, W, sock_to, close_to, peer):
                       case, step_call="close", peer=peer, socket_timeout=repr(sock_to))
     if not conn.client_closed:
         res.violation("transport-not-released", f"close(timeout={close_to}) sock_timeout={sock_to} peer={peer}: transport still open", case, step_call="close", via="close", prior="timing")
+
+
+def two_objects_case(res, W, rng, peer2, sock_to1, close_to, reader_api):
+    """Two connections in one process: a thread sits in a receive call on the first (its server is silent) while close() is called
+    on the second.  The second closes within its timeout and releases its transport; the first goes on undisturbed."""
+    out = {}
+
+    def scen():
+        S = sched.CURRENT
+        w1, c1, p1 = H.connected_ws(timeout=sock_to1)
+        w2, c2, p2 = H.connected_ws(timeout=None)
+        if peer2 == "answers":
+            p2.on_bytes = lambda c, d: S.after(0.1, lambda: (not c.client_closed) and c.deliver(R.encode(R.CLOSE, b"\x03\xe8")))
+        got = []
+
+        def reader():
+            try:
+                got.append(("value", getattr(w1, reader_api)()))
+            except BaseException as e:  # noqa
+                if isinstance(e, sched.SimAbort):
+                    raise
+                got.append(("exc", e))
+        a = S.spawn(reader, name="reader1")
+        S.sleep(0.5)
+        t0 = S.now
+        try:
+            w2.close(timeout=close_to)
+            out["exc"] = None
+        except BaseException as e:  # noqa
+            if isinstance(e, sched.SimAbort):
+                raise
+            out["exc"] = e
+        out["dt"] = S.now - t0
+        out["released"] = c2.client_closed
+        c1.deliver(R.encode(R.TEXT, b"later"))
+        S.block(lambda: a.state == sched.DONE, 30, why="join reader")
+        out["got"] = got
+
+    S = sched.Sched(horizon=120, watchdog=60)
+    case = {"gen": "two-objects", "peer_of_closing_connection": peer2, "reader_socket_timeout": sock_to1, "close_timeout": close_to, "reader_call": reader_api}
+    res.case(("two-objects", peer2, sock_to1, close_to, reader_api), nontrivial=True)
+    res.count("two_object_cases")
+    try:
+        S.run(scen)
+    except sched.SimFailure as e:
+        if isinstance(e, sched.WatchdogExpired):
+            res.inconc("two-objects case: watchdog")
+        else:
+            res.violation("close-timeout-exceeded", f"close(timeout={close_to}) on one connection while a thread is in {reader_api}() on another (silent) connection: "
+                          f"{type(e).__name__}: {str(e)[:160]}", case, step_call="close", peer=peer2, socket_timeout=repr(sock_to1))
+        return
+    limit = close_to + 1e-6
+    if out.get("exc") is not None:
+        res.violation("close-raised", f"two objects: close() raised {type(out['exc']).__name__}: {out['exc']}", case, step_call="close", got=type(out["exc"]).__name__)
+    elif out["dt"] > limit:
+        res.violation("close-timeout-exceeded", f"close(timeout={close_to}) took {out['dt']:.3f} virtual seconds while a thread sat in {reader_api}() on another connection "
+                      f"(limit {limit:.3f})", case, step_call="close", peer=peer2, socket_timeout=repr(sock_to1))
+    elif not out["released"]:
+        res.violation("transport-not-released", "two objects: transport of the closed connection still open", case, step_call="close", via="close", prior="two-objects")
+    g = out.get("got") or []
+    if g and g[0][0] == "exc" and not isinstance(g[0][1], W.WebSocketTimeoutException):
+        res.violation("internal-exception", f"two objects: the reader on the other connection got {type(g[0][1]).__name__}: {g[0][1]}", case, step_call=reader_api,
+                      got=type(g[0][1]).__name__)
 
 
 def crossing_closes(res, W, tier, seed):
